@@ -23,7 +23,7 @@ from pactisim.env import HarnessError
 
 G_TIMEOUT = 60.0
 PARSE_OPS = ("parse", "from_strings", "optimize", "get_variable_bounds", "read_file", "compound_from_strings", "compound_merge", "compound_le")
-PROBE_STRINGS = ["2x + 3y <= 4", "|x - y| <= 2", "1 <= 2(x + y) - z <= 7", "x = 3", "0.5 a + (1/2)b >= -1", "3|x| + |x| - y <= 0"]
+PROBE_STRINGS = ["2x + 3y <= 4", "1 <= 2(x + y) - z <= 7", "0.5 a + (1/2)b = -1", "3|x| + |x| - y <= 0"]
 
 ALLOWED_EXC = {
     ("builtins", "ValueError"),
@@ -126,6 +126,14 @@ def probe() -> List:
     return out
 
 
+class _Alarm(Exception):
+    pass
+
+
+def _alarm(signum, frame):
+    raise _Alarm()
+
+
 class Zygote:
     """A pristine process that forks a fresh grandchild for every request."""
 
@@ -163,16 +171,18 @@ class Zygote:
                     code = 3
                 finally:
                     os._exit(code)  # noqa: WPS437
-            deadline = time.monotonic() + G_TIMEOUT
             done = False
-            while time.monotonic() < deadline:
-                p, stt = os.waitpid(g, os.WNOHANG)
-                if p == g:
-                    done = True
-                    if stt != 0:
-                        _send(self.resp_w, ("died", stt))
-                    break
-                time.sleep(0.002)
+            signal.signal(signal.SIGALRM, _alarm)
+            signal.setitimer(signal.ITIMER_REAL, G_TIMEOUT)
+            try:
+                _p, stt = os.waitpid(g, 0)
+                done = True
+            except _Alarm:
+                done = False
+            finally:
+                signal.setitimer(signal.ITIMER_REAL, 0)
+            if done and stt != 0:
+                _send(self.resp_w, ("died", stt))
             if not done:
                 try:
                     os.kill(g, signal.SIGKILL)
@@ -256,6 +266,7 @@ class Session:
         self.expected_probe: Optional[List] = None
         self.harness_notes: List[str] = []
         self.triples: List[str] = []
+        self.parse_steps = 0
 
     # ---- helpers
     def count(self, k: str, n: int = 1) -> None:
@@ -410,7 +421,9 @@ class Session:
         if "O2" in O:
             self.check_modstate(i, name, "by the call")
             if name in PARSE_OPS:
-                self.check_probe(i, name)
+                self.parse_steps += 1
+                if self.parse_steps % 6 == 1 or step.get("env"):
+                    self.check_probe(i, name)
 
         # ---- C14 classification
         if out1[0] == "exc":
